@@ -63,7 +63,7 @@ def hostile_lines(rnd):
 
 def gen_server_case(seed):
     rnd = random.Random(seed * 1783 + 3)
-    names = sorted(n for n in corpus.scripts() if n not in ("no_dconn", "relogin"))
+    names = sorted(n for n in corpus.scripts() if n not in ("no_dconn", "relogin", "pipelined"))
     return {"mode": "server", "seed": seed, "hostile": hostile_lines(rnd), "end": rnd.choice(["fin", "rst", "hold", "fin", "fin-midline"]), "login_first": rnd.random() < 0.5, "scripts": [rnd.choice(names) for _ in range(rnd.randint(1, 2))]}
 
 
